@@ -21,3 +21,15 @@ Proof.
   induction l as [|x r IH]; cbn; intros H; [reflexivity|].
   rewrite (H x (or_introl eq_refl)), IH; [reflexivity|]. intros a Ha. apply H. right. exact Ha.
 Qed.
+
+Lemma filter_all {A} (p : A -> bool) l : forallb p l = true -> filter p l = l.
+Proof.
+  induction l as [|x r IH]; cbn; intros H; [reflexivity|].
+  apply andb_true_iff in H. destruct H as [H1 H2]. rewrite H1, IH; auto.
+Qed.
+Lemma filter_none {A} (p : A -> bool) l : forallb (fun x => negb (p x)) l = true -> filter p l = [].
+Proof.
+  induction l as [|x r IH]; cbn; intros H; [reflexivity|].
+  apply andb_true_iff in H. destruct H as [H1 H2]. apply negb_true_iff in H1. rewrite H1, IH; auto.
+Qed.
+
